@@ -103,7 +103,7 @@ def gen_names(ctx: Ctx) -> List[str]:
     pools = [
         (ASCII_OK, 6), (" ", 2), ("-", 2), (PUNCT, 1), (WHITE, 1), (NONASCII, 2),
     ]
-    for _ in range(ctx.n(900, 12000)):
+    for _ in range(ctx.n(900, 40000)):
         mode = rng.random()
         if mode < 0.15:
             ln = rng.choice([1, 2, 3, 5, 8])
@@ -171,6 +171,13 @@ def impl_names(m, name: str, mac: str = MAC) -> Dict[str, Any]:
     host = dnslabel.first_label(info.server, LOCAL_SUFFIX)
     md = info.decoded_properties.get("md")
     return {"inst": inst, "host": host, "vn": md}
+
+
+def _canon_names_exc(a):
+    """Model answer for a name on which the real ServiceInfo raised: zeroconf raises
+    BadTypeInNameException exactly for an over-long instance label."""
+    inst = a.get("inst") or ""
+    return {"exc": "BadTypeInNameException"} if len(inst.encode()) > 63 else {k: a.get(k) for k in ("inst", "host", "vn")}
 
 
 def oracle_names(ctx: Ctx, name: str, got: Dict[str, Any], mac: str = MAC):
@@ -241,7 +248,7 @@ def gen_cfg_cases(ctx: Ctx):
         {"cfg": 1, "hash": None, "ops": [["set", "a"]]},
         {"cfg": 1, "hash": "a", "ops": [["set", "a"], ["set", "a"]]},
     ]
-    for _ in range(ctx.n(300, 4000)):
+    for _ in range(ctx.n(300, 20000)):
         start = rng.choice([1, 2, 255, 256, 65533, 65534, 65535, rng.randrange(1, 65536)])
         h = rng.choice([None, "h0", "h1", "h2"])
         ops = []
@@ -634,7 +641,7 @@ def gen_xhm_cases(ctx: Ctx):
     for cat in range(256):
         codes = [rng.choice(fixed), rng.randrange(10**8), rng.randrange(10**8), rng.randrange(10**4)]
         if not ctx.quick:
-            codes += [rng.randrange(10**8) for _ in range(8)]
+            codes += [rng.randrange(10**8) for _ in range(26)]
         for code in codes:
             d = f"{code:08d}"
             cases.append({"category": cat, "pin": f"{d[:3]}-{d[3:5]}-{d[5:]}", "code": code,
@@ -1067,14 +1074,28 @@ def run(ctx: Ctx):
     post: List[Any] = []  # per line: (stream, case, canonicaliser for the model answer)
 
     # --- names
+    consts = source_constants()
+    repaired = consts.get("MAX_MDNS_NAME_LENGTH") is not None
+    if not repaired:
+        st.notes.append(
+            "the tree under check lacks the C18 name repair (no MAX_MDNS_NAME_LENGTH): the names stream is compared with "
+            "the model's *legacy* sanitisers; C18_names_valid / C18_sanitised_names speak about the repaired ones, "
+            "C18_names_legacy_counterexample about these"
+        )
+    names_op = "names" if repaired else "names_legacy"
     macs = [MAC, "00:00:00:Ab:cD:EF"] + [gen_mac(rng) for _ in range(6)]
     for k, name in enumerate(gen_names(ctx)):
         mac = MAC if k < len(BOUNDARY_NAMES) else macs[k % len(macs)]
         got = impl_names(m, name, mac)
         oracle_names(ctx, name, got, mac)
-        lines.append({"layer": "advert", "op": "names", "name": _cps(name), "mac": mac})
-        impl.append({k: got.get(k) for k in ("inst", "host", "vn")} if "exc" not in got else {"exc": got["exc"]})
-        post.append(("names", {"name": name[:80], "len": len(name)}, lambda a: {k: a.get(k) for k in ("inst", "host", "vn")}))
+        lines.append({"layer": "advert", "op": names_op, "name": _cps(name), "mac": mac})
+        if "exc" in got:
+            # zeroconf refuses the name; the model has no ServiceInfo, its labels are judged instead
+            impl.append({"exc": got["exc"]})
+            post.append(("names", {"name": name[:80], "len": len(name)}, _canon_names_exc))
+        else:
+            impl.append({k: got.get(k) for k in ("inst", "host", "vn")})
+            post.append(("names", {"name": name[:80], "len": len(name)}, lambda a: {k: a.get(k) for k in ("inst", "host", "vn")}))
         changed = "exc" in got or got["vn"] != name
         st.case(["n", _cps(name)], changed)
         st.hit("op", "names")
@@ -1091,9 +1112,9 @@ def run(ctx: Ctx):
     st.sample({"display_name": "- - H---A---P---P---Y - -", "impl": impl_names(m, "- - H---A---P---P---Y - -")})
 
     # --- TXT record
-    for i in range(ctx.n(120, 1500)):
+    for i in range(ctx.n(120, 4000)):
         case = {
-            "name": rng.choice(["Lamp", "Test Accessory", "é!", "x" * 60, "Bridge 2"]),
+            "name": rng.choice(["Lamp", "Test Accessory", "\u00e9 Lamp!", "--h a p p y--", "Bridge 2"]),  # degenerate names: names stream
             "category": rng.choice([1, 2, 5, 8, 17, 32, rng.randrange(256)]),
             "mac": "".join(rng.choice("0123456789ABCDEFabcdef") + rng.choice("0123456789ABCDEF") + ":" for _ in range(6))[:-1],
             "cfg": rng.choice([1, 2, 65535, rng.randrange(1, 65536)]),
@@ -1142,7 +1163,7 @@ def run(ctx: Ctx):
     st.sample({"xhm_case": case, "impl": got})
 
     # --- restart pairs
-    n_restart = ctx.n(36, 400)
+    n_restart = ctx.n(36, 1000)
     for i in range(n_restart):
         a = gen_config(rng)
         kind, b, changed = mutate_config(rng, a)
@@ -1169,7 +1190,7 @@ def run(ctx: Ctx):
             st.sample({"restart_kind": kind, "c1": got["c1"], "c2": got["c2"], "hash_equal": got["h1"] == got["h2"]})
 
     # --- values never move the hash
-    for i in range(ctx.n(30, 300)):
+    for i in range(ctx.n(30, 800)):
         cfg = gen_config(rng)
         ops = []
         for _ in range(rng.randrange(1, 8)):
@@ -1191,7 +1212,7 @@ def run(ctx: Ctx):
 
     # --- ordering scripts
     scripts = [json.loads(json.dumps(s)) for s in BOUNDARY_SCRIPTS]
-    for _ in range(ctx.n(140, 2500)):
+    for _ in range(ctx.n(140, 8000)):
         scripts.append(gen_sys_script(rng, big=not ctx.quick and rng.random() < 0.3))
     for i, script in enumerate(scripts):
         got = impl_sys(m, script)
@@ -1211,8 +1232,11 @@ def run(ctx: Ctx):
 
     # --- constants
     lines.append({"layer": "advert", "op": "consts"})
-    impl.append(source_constants())
-    post.append(("constants", None, lambda a: a))
+    impl.append(consts)
+    if repaired:
+        post.append(("constants", None, lambda a: a))
+    else:
+        post.append(("constants", None, lambda a: {**a, "MAX_MDNS_NAME_LENGTH": None, "DEFAULT_MDNS_NAME": None}))
 
     # --- model side
     model = run_model_parallel("C18", lines)
